@@ -167,6 +167,11 @@ func sortWant(w []ttlWant) {
 // checkConverged: after a successful run every data table's TTL and storage policy equal
 // what the configuration implies.
 func checkConverged(cat *fakech.CtrlCatalog, cfg rotCfg) error {
+	return checkConvergedSkip(cat, cfg, nil)
+}
+
+// checkConvergedSkip: skip(table, "ttl"|"policy") exempts one aspect of one table (region of a known finding).
+func checkConvergedSkip(cat *fakech.CtrlCatalog, cfg rotCfg, skip func(table, aspect string) bool) error {
 	for _, t := range dataTables {
 		o := cat.Table(t.name)
 		if o == nil {
@@ -185,10 +190,10 @@ func checkConverged(cat *fakech.CtrlCatalog, cfg rotCfg) error {
 		}
 		sortWant(got)
 		want := wantTTL(cfg, t)
-		if fmt.Sprint(got) != fmt.Sprint(want) {
+		if fmt.Sprint(got) != fmt.Sprint(want) && !(skip != nil && skip(t.name, "ttl")) {
 			return fmt.Errorf("table %s: TTL is %q = %v, the configuration %s implies %v (seconds, action, disk)", t.name, o.TTL, got, cfgStr(cfg), want)
 		}
-		if cfg.Policy != "" && o.Settings["storage_policy"] != cfg.Policy {
+		if cfg.Policy != "" && o.Settings["storage_policy"] != cfg.Policy && !(skip != nil && skip(t.name, "policy")) {
 			return fmt.Errorf("table %s: storage policy is %q, configured %q", t.name, o.Settings["storage_policy"], cfg.Policy)
 		}
 	}
@@ -227,6 +232,90 @@ func ttlEqual(a, b string) bool {
 		return fakech.CtrlCanon(a) == fakech.CtrlCanon(b)
 	}
 	return fmt.Sprint(ia) == fmt.Sprint(ib)
+}
+
+func markerKind(value string) string {
+	if items, err := fakech.CtrlParseTTL(value); err == nil && len(items) > 0 {
+		return "ttl"
+	}
+	return "policy"
+}
+
+// staleSkip computes the region of known finding C19-stale-marker-after-interrupted-change for a
+// run that applies cfg, per marker group: a table of the group was ALTERed after the group's
+// marker was last written (an interrupted change), still differs from what the marker says,
+// and cfg asks for exactly the marker's value again — the unchanged code compares marker and
+// desired value, skips the group, and that table keeps the interrupted run's value. A group
+// whose marker was written by the interrupted run is NOT in the region (marker != desired:
+// the code re-alters it, so it must converge).
+func (w *world) staleSkip(cfg rotCfg) func(table, aspect string) bool {
+	if w.o.Witness || !knownIDs()[findStale] {
+		return nil
+	}
+	cat := w.conn.Cat
+	markers := map[string]string{} // name/kind -> value
+	for _, r := range cat.LatestSettings() {
+		if r.Type == "rotate" && r.Value != "" {
+			markers[r.Name+"/"+markerKind(r.Value)] = r.Value
+		}
+	}
+	skipped := map[string]bool{}
+	for name, gs := range markerGroups {
+		for _, g := range gs {
+			m, ok := markers[name+"/"+g.kind]
+			if !ok {
+				continue
+			}
+			for _, tn := range g.tables {
+				t := cat.Table(tn)
+				if t == nil || w.lastAlter[tn+"/"+g.kind] <= w.lastMarker[name+"/"+g.kind] {
+					continue
+				}
+				switch g.kind {
+				case "policy":
+					if t.Settings["storage_policy"] != m && cfg.Policy == m {
+						skipped[tn+"/policy"] = true
+					}
+				case "ttl":
+					if ttlEqual(t.TTL, m) {
+						continue
+					}
+					var spec tableSpec
+					for _, d := range dataTables {
+						if d.name == tn {
+							spec = d
+						}
+					}
+					items, err := fakech.CtrlParseTTL(m)
+					if err != nil {
+						continue
+					}
+					var got []ttlWant
+					for _, it := range items {
+						got = append(got, ttlWant{it.Seconds, it.Action, it.Target})
+					}
+					sortWant(got)
+					if fmt.Sprint(got) == fmt.Sprint(wantTTL(cfg, spec)) {
+						skipped[tn+"/ttl"] = true
+					}
+				}
+			}
+		}
+	}
+	if len(skipped) == 0 {
+		return nil
+	}
+	return func(table, aspect string) bool {
+		if skipped[table+"/"+aspect] {
+			if !w.knownOnce {
+				w.knownOnce = true
+				w.o.Known(findStale)
+			}
+			w.o.Tag("stale-marker-region:" + aspect)
+			return true
+		}
+		return false
+	}
 }
 
 // checkMarker: a marker is recorded only when every table of its group already carries the
@@ -342,10 +431,15 @@ type world struct {
 	pending   int // ALTERs applied in this run since the last marker write
 	betweenAM bool
 	markerErr error
+	// order of events, for the per-group region of the known stale-marker finding
+	seq        int
+	lastAlter  map[string]int // table/aspect -> sequence number of the last applied ALTER of that aspect
+	lastMarker map[string]int // marker name/kind -> sequence number of the last applied marker write
+	knownOnce  bool
 }
 
 func newWorld(e env, cat *fakech.CtrlCatalog, o *evid.Obs) *world {
-	w := &world{e: e, conn: fakech.NewCtrlConnOn(cat), o: o}
+	w := &world{e: e, conn: fakech.NewCtrlConnOn(cat), o: o, lastAlter: map[string]int{}, lastMarker: map[string]int{}}
 	w.conn.Decide = func(c *fakech.CtrlCall) fakech.CtrlFaultMode {
 		f := w.armed
 		if f == nil {
@@ -384,10 +478,28 @@ func newWorld(e env, cat *fakech.CtrlCatalog, o *evid.Obs) *world {
 		switch {
 		case c.Stmt.Kind == "alter":
 			w.pending++
+			for _, cmd := range c.Stmt.Cmds {
+				switch {
+				case cmd.Op == "modify_ttl":
+					w.seq++
+					w.lastAlter[c.Stmt.Table+"/ttl"] = w.seq
+				case cmd.Op == "modify_setting":
+					if _, ok := cmd.Settings["storage_policy"]; ok {
+						w.seq++
+						w.lastAlter[c.Stmt.Table+"/policy"] = w.seq
+					}
+				}
+			}
 		case c.Stmt.Kind == "insert" && c.Stmt.Table == "settings":
 			w.pending = 0
-			if r, ok := c.Stmt.SettingRow(); ok && w.markerErr == nil {
-				w.markerErr = checkMarker(r, cat, w.o)
+			if r, ok := c.Stmt.SettingRow(); ok {
+				if r.Type == "rotate" && r.Value != "" {
+					w.seq++
+					w.lastMarker[r.Name+"/"+markerKind(r.Value)] = w.seq
+				}
+				if w.markerErr == nil {
+					w.markerErr = checkMarker(r, cat, w.o)
+				}
 			}
 		}
 	}
@@ -490,7 +602,8 @@ func short(s string) string {
 // settle: after a successful run with cfg the state must equal the configuration, and one
 // more run with the same configuration must issue no ALTER.
 func (w *world) settle(cfg rotCfg, what string) error {
-	if err := checkConverged(w.conn.Cat, cfg); err != nil {
+	skip := w.staleSkip(cfg)
+	if err := checkConvergedSkip(w.conn.Cat, cfg, skip); err != nil {
 		return fmt.Errorf("%s: %v", what, err)
 	}
 	ok, run, verr := w.run(cfg, nil)
@@ -519,7 +632,7 @@ func (w *world) settle(cfg rotCfg, what string) error {
 		}
 		return fmt.Errorf("%s: a second run with the unchanged configuration %s issues %d ALTER statement(s): %s", what, cfgStr(cfg), len(alters), strings.Join(alters, " | "))
 	}
-	return checkConverged(w.conn.Cat, cfg)
+	return checkConvergedSkip(w.conn.Cat, cfg, skip)
 }
 
 // ---- check 1+3: one configuration change with a fault at every call ------------------------------------
@@ -883,11 +996,9 @@ func predHistory0(c histCase, o *evid.Obs) error {
 	lastOK := true
 	changesAfterFault, fired := 0, 0
 	if staleRegion(c) {
+		// shape in which the known stale-marker finding can occur; the exclusion itself is
+		// per marker group and per table (world.staleSkip), the rest of the history is judged
 		o.Tag("revert-after-interrupted-change")
-		if !o.Witness && knownIDs()[findStale] {
-			o.Known(findStale)
-			return nil
-		}
 	}
 	for i, s := range c.Steps {
 		cfg := c.Pool[s.Cfg]
